@@ -11,6 +11,7 @@ from .. import pkt as P
 from ..core import Result, SubCheck
 from ..refs import tlv as T
 from ..sim import net
+from ..linebudget import BudgetExceeded, LineBudget
 from ..sim.appsim import AppSim, exc_site
 from ..sim.vloop import VLoop
 from .c03_pit import _outcome_label, _verdict
@@ -280,8 +281,10 @@ def _input_spec():
     seed = st.fixed_dictionaries({'fam': st.just('seed'), 'seed': st.sampled_from(sorted(SEEDS))})
     mutated = st.fixed_dictionaries({'fam': st.just('mutated'), 'seed': st.sampled_from(sorted(SEEDS)),
                                      'muts': st.lists(M.mutation_spec(), min_size=1, max_size=3)})
+    wide = st.fixed_dictionaries({'fam': st.just('mutated'), 'seed': st.sampled_from(sorted(SEEDS)),
+                                  'muts': st.lists(M.mutation_spec(['num-wide']), min_size=1, max_size=1)})
     near = st.fixed_dictionaries({'fam': st.just('near-bystander'), 'i': st.integers(0, 2), 'k': st.integers(0, 4)})
-    return st.one_of(raw, raw_framed, raw_framed, seed, mutated, mutated, mutated, mutated, near)
+    return st.one_of(raw, raw_framed, raw_framed, seed, mutated, mutated, mutated, mutated, near, wide)
 
 
 def build_input(spec):
@@ -426,7 +429,12 @@ def _deliver(sim, target, udp, w, mode, r, buf=0):
         w = _in_buf(w, buf)
     if target.startswith('udp'):
         try:
-            sim.vl.call(udp.datagram_received, w, ('127.0.0.1', 6363))
+            with LineBudget(100000 + 300 * len(raw)):
+                sim.vl.call(udp.datagram_received, w, ('127.0.0.1', 6363))
+                sim.vl.settle()
+        except BudgetExceeded as e:
+            r.bad(f'C06/{target}/reception-does-not-terminate', f'{e} input={raw.hex()[:160]}')
+            return 'raised'
         except Exception as e:
             r.bad(f'C06/{target}/datagram_received-raised/{exc_site(e)}', f'{e!r} input={w.hex()[:120]}')
             return 'raised'
@@ -447,13 +455,19 @@ def _deliver(sim, target, udp, w, mode, r, buf=0):
             await sim.app.face.callback(typ, w)
         except Exception as e:  # noqa
             sim.receive_errors.append(exc_site(e) + f': {e!r}'[:200])
-    if mode == 'await':
-        sim.vl.run(_guard())
-    else:
-        async def _spawn():
-            asyncio.get_running_loop().create_task(_guard())
-        sim.vl.run(_spawn())
-    sim.vl.settle()
+    # handling one packet takes a bounded number of steps (a decoder walking backwards would spin for ever and freeze the loop)
+    with LineBudget(100000 + 300 * len(raw)):
+        if mode == 'await':
+            sim.vl.run(_guard())
+        else:
+            async def _spawn():
+                asyncio.get_running_loop().create_task(_guard())
+            sim.vl.run(_spawn())
+        sim.vl.settle()
+    if len(sim.receive_errors) > before and 'BudgetExceeded' in sim.receive_errors[before]:
+        r.bad(f'C06/{target}/reception-does-not-terminate', f'{sim.receive_errors[before][:120]} input={raw.hex()[:160]}')
+        sim.receive_errors.clear()
+        return 'raised'
     if len(sim.receive_errors) > before:
         e = sim.receive_errors[before]
         r.bad(f'C06/{target}/receive-raised/{e.split(":")[0]}', f'{e} input={raw.hex()[:160]} buf={buf}')
